@@ -2158,6 +2158,144 @@ def integral_auto_histories(ctx, impl, oracle):
         ctx.log("histories auto-integral unavailable: %s" % e)
 
 
+# ------------------------------------------------------------------ non-canonical numerals / conditional rewriting
+def noncanonical(t, rng, p=0.6):
+    """t with (some of) its numerals written non-canonically: of_nat 0, of_nat 1, binary numerals padded with
+    a leading zero digit (bit1 zero for one).  Same value, same type."""
+    from kernel.term import Comb, Abs, Const, Binary, of_nat
+    from kernel.type import NatType, TFun
+    try:
+        if (t.is_comb() or t.is_const()) and t.is_nat_number() and rng.random() < p:
+            T = t.get_type()
+            v = t.dest_number()
+            bit0 = Const("bit0", TFun(NatType, NatType))
+            bit1 = Const("bit1", TFun(NatType, NatType))
+            zero, one = Const("zero", NatType), Const("one", NatType)
+
+            def pad(b):
+                if b.is_const("one"):
+                    return bit1(zero)
+                if b.is_const("zero"):
+                    return bit0(zero)
+                return b.fun(pad(b.arg))
+            k = rng.random()
+            if v == 0:
+                b = zero if k < 0.6 else bit0(zero)
+            elif v == 1:
+                b = one if k < 0.6 else bit1(zero)
+            else:
+                b = pad(Binary(v))
+            return of_nat(T)(b)
+    except Exception:  # noqa
+        return t
+    if t.is_comb():
+        return Comb(noncanonical(t.fun, rng, p), noncanonical(t.arg, rng, p))
+    if t.is_abs():
+        return Abs(t.var_name, t.var_T, noncanonical(t.body, rng, p))
+    return t
+
+
+def noncanonical_stream(ctx, impl, oracle):
+    """Every arithmetic macro family on inputs whose numerals are written non-canonically."""
+    import time
+    from kernel.term import Term
+    from kernel.thm import Thm
+    t0 = time.time()
+    fams = [("hoare", "nat_arith"), ("hoare", "fun_upd"), ("expr", "avalI"), ("real", "int_real_arith")]
+    n = 0
+    for thy, meth in sorted(fams):
+        try:
+            load_state(impl, thy, None)
+        except Exception:  # noqa
+            continue
+        rng = ctx.rng("gen:noncanonical:" + meth)
+        G = FamGen(rng)
+        for i in range(ctx.scale(60, 600)):
+            try:
+                cases = getattr(G, meth)()
+            except Exception:  # noqa
+                continue
+            for (name, args, ths) in cases:
+                try:
+                    if name not in impl.theory.global_macros or not impl.theory.has_macro(name):
+                        continue
+                except AttributeError:
+                    continue
+                a2 = noncanonical(args, rng) if isinstance(args, Term) else args
+                t2 = [Thm(noncanonical(t.prop, rng), tuple(t.hyps)) for t in ths]
+                if a2 is args and all(x.prop is y.prop for x, y in zip(t2, ths)):
+                    continue
+                if isinstance(a2, Term) and not well_typed(a2):
+                    continue
+                oracle.run_one(name, a2, t2, {"kind": "generated", "family": "noncanonical-numerals:" + meth, "index": i}, "generated")
+                n += 1
+    ctx.log("generators noncanonical-numerals: %d inputs in %.1fs; findings so far: %d" % (n, time.time() - t0, len(oracle.found)))
+
+
+def cond_rewrite_stream(ctx, impl, oracle):
+    """rewrite_goal / rewrite_goal_sym / rewrite_fact / rewrite_fact_sym with CONDITIONAL rewrite theorems
+    A1 --> ... --> lhs = rhs of the loaded theory: the rewritten statement and every side condition is a premise
+    with hypotheses of its own (eval must collect the hypotheses of all of them)."""
+    import time
+    from kernel.term import Var, Inst
+    from kernel.type import TyInst, NatType, TFun, BoolType
+    from kernel.thm import Thm
+    t0 = time.time()
+    theory = impl.theory
+    rng = ctx.rng("gen:cond-rewrite")
+    rules = []
+    for nm in sorted(theory.thy.get_data("theorems").keys()):
+        try:
+            th = theory.get_theorem(nm)
+            As, C = th.prop.strip_implies()
+            if th.hyps or not (1 <= len(As) <= 3) or th.prop.size() > 60 or not C.is_equals():
+                continue
+            ls = set(v.name for v in C.lhs.get_svars())
+            if not ls or any(v.name not in ls for t in As + [C.rhs] for v in t.get_svars()) or C.lhs.is_svar():
+                continue
+            rules.append(nm)
+        except Exception:  # noqa
+            continue
+    Hs = [Var("H%d" % i, BoolType) for i in range(1, 5)]
+    n = 0
+    for i in range(ctx.scale(80, 800)):
+        if not rules:
+            break
+        nm = rules[i % len(rules)] if i < len(rules) else rng.choice(rules)
+        th = theory.get_theorem(nm)
+        try:
+            tyinst = TyInst({stv.name: NatType for stv in th.prop.get_stvars()})
+            prop = th.prop.subst_type(tyinst)
+            inst = Inst({sv.name: Var("h_" + sv.name, sv.T) for sv in prop.get_svars()})
+            As, C = prop.subst(inst).strip_implies()
+            T = C.lhs.get_type()
+            if T == BoolType:
+                ctxf = lambda x: x        # noqa
+            else:
+                P = Var("c04P", TFun(T, BoolType))
+                ctxf = lambda x: P(x)     # noqa
+            g_l, g_r = ctxf(C.lhs), ctxf(C.rhs)
+        except Exception:  # noqa
+            continue
+
+        def hy(j):
+            k = rng.random()
+            if k < 0.25:
+                return ()
+            if k < 0.8:
+                return (Hs[j % 4],)
+            return (Hs[j % 4], Hs[(j + 1) % 4])
+        conds = [Thm(A, hy(j + 1)) for j, A in enumerate(As)]
+        org = {"kind": "generated", "family": "cond-rewrite", "index": i, "theorem": nm}
+        for (name, args, ths) in [("rewrite_goal", (nm, g_l), [Thm(g_r, hy(0))] + conds),
+                                  ("rewrite_goal_sym", (nm, g_r), [Thm(g_l, hy(0))] + conds),
+                                  ("rewrite_fact", nm, [Thm(g_l, hy(0))] + conds),
+                                  ("rewrite_fact_sym", nm, [Thm(g_r, hy(0))] + conds)]:
+            oracle.run_one(name, args, ths, org, "generated")
+            n += 1
+    ctx.log("generators cond-rewrite: %d conditional rewrite theorems, %d inputs in %.1fs; findings so far: %d" % (len(rules), n, time.time() - t0, len(oracle.found)))
+
+
 def run_generators(ctx, impl, oracle, mut):
     import time
     order = sorted(GEN_FAMILIES, key=lambda f: f[1])
@@ -2204,9 +2342,11 @@ def run_generators(ctx, impl, oracle, mut):
             ho_theorem_stream(ctx, impl, oracle, mut)
             auto_rule_histories(ctx, impl, oracle)
             auto_norm_histories(ctx, impl, oracle)
+            cond_rewrite_stream(ctx, impl, oracle)
         except Exception as e:  # noqa
             ctx.log("ho-theorem / history streams on %s stopped: %s: %s" % (thy, type(e).__name__, e))
             ctx.count("generator-error:ho-or-history:" + thy)
+    noncanonical_stream(ctx, impl, oracle)
     if ctx.tier == "thorough":
         integral_auto_histories(ctx, impl, oracle)
     verit_stream(ctx, impl, oracle, mut)
